@@ -64,6 +64,10 @@ def gen_case(r, i=0):
         d[1] = "/u%d" % j
         if d[2]:
             d[2] = "T%d" % j
+    if i % 6 == 5:
+        # an EMPTY destination, written <>, is a definition like any other: it wins over later ones and resolves to href=""
+        # (chosen from the case number, not from r: the other cases stay what they were)
+        defs[i // 6 % len(defs)][1] = ""
     uses = []
     for _ in range(r.randint(1, 7)):
         l = r.choice(labs + labs + UNDEF)
@@ -79,7 +83,7 @@ def gen_case(r, i=0):
     for kind, j in blocks:
         if kind == "def":
             lab, url, title, place = defs[j]
-            line = "[%s]: %s%s" % (lab, url, (' "%s"' % title) if title else "")
+            line = "[%s]: %s%s" % (lab, url or "<>", (' "%s"' % title) if title else "")
             if "\n" in lab:
                 place = "top" if place in ("quote", "quote-list", "deep", "deep6", "note", "note-quote", "rst-note", "rst-note-ragged", "include") else place
                 defs[j][3] = place  # (the recorded placement is what collection_order reads)
@@ -257,6 +261,19 @@ def _table_correspondence(ctx):
             "samples": [json.dumps(cases[0]["doc"])]}
 
 
+def _corner(defs, uses, doc):
+    return {"defs": defs, "uses": uses, "doc": doc, "files": {}, "blocks": [("def", d) for d in defs] + [("use", None) for _ in uses]}
+
+
+# documents compared on every run: a first definition with an empty destination, with and without a title, wins
+CORNERS = [
+    _corner([["foo", "", None, "top"], ["foo", "/u1", None, "top"]], [["foo", "shortcut", "p"]],
+            "[foo]: <>\n\n[foo]: /u1\n\ntext M0x:[foo] end\n"),
+    _corner([["Foo", "", "T0", "quote"], ["foo", "/u1", "T1", "top"]], [["FOO", "full", "p"]],
+            "> [Foo]: <> \"T0\"\n\n[foo]: /u1 \"T1\"\n\ntext [M0x][FOO] end\n"),
+]
+
+
 def check_case(m, c, fails):
     try:
         obs, out = observe(m, c)
@@ -275,7 +292,7 @@ def oracle(ctx, extra):
     m = ctx.mistune
     r = ctx.rng("oracle")
     fails = []
-    cases = [e for e in extra if isinstance(e, dict) and "defs" in e] + [gen_case(r, i) for i in range(ctx.n(2500, 60000))]
+    cases = [e for e in extra if isinstance(e, dict) and "defs" in e] + CORNERS + [gen_case(r, i) for i in range(ctx.n(2500, 60000))]
     n = 0
     for c in cases:
         n += 1
